@@ -17,8 +17,7 @@ CLAIM = dict(
          "S-subsystems coincide (homogeneous mean-field, homogeneous pairwise, compact pairwise); dtheta/dt=0 in _dEBCM_ <=> theta is a fixed point "
          "of the map iterated by Attack_rate_cts_time, where 1-psihat(theta)=R/N; the theta-sequence of EBCM_discrete IS the iteration of "
          "Attack_rate_discrete so Attack_rate_discrete(n)=1-S(tmin+n)/N exactly, R(t+1)=R(t)+I(t), S+I+R=N.  Translation tied by point evaluation "
-         "(>=200 random dyadic points per function).  ALSO PROVED, over hand-written models of the node-level and 2-D right-hand sides (coq/Model/Rhs2D.v, tied to the code by "
-         "point evaluation on every run, >=200 points per function): tau=0 => dX_i=0, dY_i=-gamma_i*Y_i componentwise for individual-based and pair-based (any graph, any rate "
+         "(>=200 random dyadic points per function).  ALSO PROVED, over hand-written models of the node-level and 2-D right-hand sides (coq/Model/Rhs2D.v; on every run translate/rhs2d2v.py, fail-closed, regenerates coq/Gen/Rhs2.v from the source and the theorems *_generated_* re-prove generated definition = model; model and generated definition are also point-evaluated against the code, >=200 points per function): tau=0 => dX_i=0, dY_i=-gamma_i*Y_i componentwise for individual-based and pair-based (any graph, any rate "
          "functions), dS_k=0 / +gamma*I_k and dI_k=-gamma*I_k for heterogeneous pairwise, and for effective degree the totals S'=0 (SIR) / +gamma*I (SIS, on the feasible region), "
          "I'=-gamma*I; gamma=0 => the SIS system and the S-part of the SIR system have the same right-hand side for all four families (heterogeneous pairwise: where no "
          "zero-denominator guard fires); pair_based_tree_exact_partial: on the single edge the pair-based SIR system is closed (closure sums empty) and equals the marginals of the "
